@@ -52,6 +52,8 @@ def check(run, project):
     c20.t6(run, project, L, facets={"decode"}, rule="W0")
     w1(run, roles, L)
     w2(run, roles)
+    from .c02 import primitive_event_once
+    primitive_event_once(run, roles, "W2")
     w3(run, roles)
     w45_struct(run, roles, L)
     w5_arrays(run, roles)
@@ -221,7 +223,7 @@ def w2(run, roles):
            f"signed is `{norm(sg) if sg is not None else None}`", module=mod, node=R["call"], func=fn.name,
            construct="int.from_bytes signed")
     data = R["call"].args[0]
-    run.ob("W2", isinstance(V.resolve(data, R["call"]), ast.List) or isinstance(data, ast.Name), "bytes are collected in read order",
+    run.ob("W2", R.get("manual") or isinstance(V.resolve(data, R["call"]), ast.List) or isinstance(data, ast.Name), "bytes are collected in read order",
            "int.from_bytes does not consume the collected bytes", module=mod, node=R["call"], func=fn.name, construct="from_bytes data")
     # event
     from .c04 import find_event_yield
@@ -236,8 +238,7 @@ def w2(run, roles):
                func=fn.name, construct="MarshalEvent args")
         if len(args) == 3:
             tv = V.resolve(args[2], y)
-            okv = isinstance(tv, ast.Call) and norm(tv.func) == t and len(tv.args) == 1 and \
-                isinstance(V.resolve(tv.args[0], y), ast.Call) and V.resolve(tv.args[0], y) is R["call"]
+            okv = isinstance(tv, ast.Call) and norm(tv.func) == t and len(tv.args) == 1 and R["is_decoded"](tv.args[0], y)
             run.ob("W2", okv, f"event value at L{y.lineno} is tpm_type(<decoded integer>)",
                    f"event value is `{norm(tv)}`: not the typed value (its class, text form and byte form are those of a plain int)",
                    module=mod, node=ev, func=fn.name, construct="MarshalEvent value")
@@ -705,17 +706,82 @@ def framing(run, roles, L):
                node=fn, func=w, construct=f"{w} variants")
     # encrypted first parameter: substitution exactly when the flag is truthy and the type is a TPMS_PARAMS subclass
     fn = roles.walkers["process_tpms"]
-    subs = [s for s in fn.body if isinstance(s, ast.If) and any(isinstance(c, ast.Call) and norm(c.func) == "tpm_type.encrypted" for c in ast.walk(s))]
-    ok = len(subs) == 1 and norm(subs[0].test) == "parameter_encryption and issubclass(tpm_type, TPMS_PARAMS)" and \
-        [norm(x) for x in subs[0].body] == ["tpm_type = tpm_type.encrypted()"] and not subs[0].orelse and fn.body.index(subs[0]) <= 1
-    run.ob("F", ok, "opaque first parameter iff the flag is set and the type is a parameter area",
-           f"substitution guard is `{norm(subs[0].test) if subs else None}`", module=mod, node=subs[0] if subs else fn, func=fn.name,
-           construct="encrypted() substitution")
+    encrypted_guard(run, roles, L, "F")
     # the struct walker does not forward the flag to children (it is inert below the area)
     d_calls = [c for c in walk_no_nested(fn) if isinstance(c, ast.Call) and call_name(c) == d]
     fw = [c for c in d_calls if kwarg(c, "parameter_encryption") is not None]
     run.ob("F", not fw, "the encryption flag stops at the parameter area", "the struct walker forwards parameter_encryption to nested fields",
            module=mod, node=fw[0] if fw else fn, func=fn.name, construct="parameter_encryption forwarding")
+
+
+def encrypted_guard(run, roles, L, rule):
+    """`tpm_type.encrypted()` replaces the layout exactly when the flag is set and the type is a parameter area: the
+    type-dependent conditions on the substituting paths of the struct walker are evaluated on every dataclass of L."""
+    from .. import paths
+    mod = roles.mod
+    fn = roles.walkers["process_tpms"]
+    tparam = fn.args.args[0].arg
+    head = []
+    for st in fn.body:
+        head.append(st)
+        if any(isinstance(x, (ast.Yield, ast.YieldFrom)) for x in ast.walk(st)):
+            break
+    S = paths.Summariser(mod, fn)
+    done, live = S.run(head[:-1])
+    pre = done + live
+    if not pre:
+        raise AnalysisError("F: prologue of the struct walker has no path")
+    subst = [p for p in pre if p.env.get(tparam) is not None and paths.text(p.env[tparam]) == f"{tparam}.encrypted()"]
+    plain = [p for p in pre if p.env.get(tparam) is None]
+    other = [p for p in pre if p not in subst and p not in plain]
+    run.ob(rule, bool(subst) and not other, "the struct walker substitutes tpm_type.encrypted() on some path and nothing else",
+           f"layout substitutions: {[paths.text(p.env[tparam]) for p in other]}" if other else "no path substitutes the encrypted layout",
+           module=mod, node=fn, func=fn.name, construct="encrypted() substitution")
+    FLAG = "truthy parameter_encryption"
+
+    def has_attr(c, name):
+        return isinstance(c, ClassV) and (c.has(name) or any(n == name for n, _ in (L.fields(c) if L.is_dataclass(c) else [])))
+
+    def holds(atom, val, c):
+        """truth of a type-dependent atom for class c (None: not type-dependent)"""
+        e = paths.pattern_expr(atom[len("truthy "):] if atom.startswith("truthy ") else atom)
+        if isinstance(e, ast.Call) and call_name(e) == "hasattr" and len(e.args) == 2 and norm(e.args[0]) == tparam \
+                and isinstance(e.args[1], ast.Constant):
+            return has_attr(c, e.args[1].value) == val
+        try:
+            return eval_pred(e, c, False, L, tparam) == val
+        except AnalysisError:
+            return None
+    domain = [(k, c) for k, c in sorted(L.all.items()) if isinstance(c, ClassV) and L.is_dataclass(c)] + [("TPMS_PARAMS", L.TPMS_PARAMS)]
+    for p in subst:
+        run.ob(rule, p.truth(FLAG) is True, "opaque first parameter only when the flag is set",
+               f"the encrypted layout is substituted on a path where the flag is {p.truth(FLAG)}", module=mod, node=fn, func=fn.name,
+               construct="encrypted() substitution")
+        type_atoms = [(a, v) for a, v, _ in p.cond if a != FLAG and tparam in a]
+        unknown = [a for a, v in type_atoms if holds(a, v, L.TPMS_PARAMS) is None]
+        if unknown:
+            raise AnalysisError(f"F: substitution guard `{unknown[0]}` is outside the modelled vocabulary")
+        bad = []
+        for k, c in domain:
+            taken = all(holds(a, v, c) for a, v in type_atoms)
+            if taken != c.is_subclass_of(L.TPMS_PARAMS):
+                bad.append(k)
+        run.ob(rule, not bad, "opaque first parameter iff the flag is set and the type is a parameter area",
+               f"substitution guard is `{' and '.join(('' if v else 'not ') + a for a, v, _ in p.cond)}`: for {bad[:4]} "
+               f"({len(bad)} types) it {'calls' if bad and not L.all.get(bad[0], L.TPMS_PARAMS).is_subclass_of(L.TPMS_PARAMS) else 'skips'} "
+               "`.encrypted()` although the type is "
+               f"{'not ' if bad and not L.all.get(bad[0], L.TPMS_PARAMS).is_subclass_of(L.TPMS_PARAMS) else ''}a parameter area "
+               "(a field named `encrypted` is not the classmethod: TypeError)", module=mod, node=p.cond[-1][2] if p.cond else fn,
+               func=fn.name, construct="encrypted() substitution")
+    # with the flag set and a parameter area, no path keeps the plain layout
+    for p in plain:
+        if p.truth(FLAG) is True:
+            type_atoms = [(a, v) for a, v, _ in p.cond if a != FLAG and tparam in a]
+            keeps = [k for k, c in domain if c.is_subclass_of(L.TPMS_PARAMS) and c is not L.TPMS_PARAMS
+                     and all(holds(a, v, c) for a, v in type_atoms)]
+            run.ob(rule, not keeps, "with the flag set every parameter area gets the encrypted layout",
+                   f"{keeps[:3]} keep their plain layout although the flag is set", module=mod, node=fn, func=fn.name,
+                   construct="encrypted() substitution")
 
 
 def helper_semantics(run, project, roles):
